@@ -482,11 +482,13 @@ static _Bool world_equal(const struct world* w) {
 }
 
 /* ---- order predicates: loop-free, all hashes and keys -------------------------------------------------------------------- */
+kkey_t in_ok[3]; hash_t in_oh[3];
 void h_order(void) {
   struct data_t a, b, c;
-  a.value.first = nondet_u32(); b.value.first = nondet_u32(); c.value.first = nondet_u32();
-  a.value.second = nondet_uptr(); b.value.second = nondet_uptr(); c.value.second = nondet_uptr();
-  hash_t ha = HASH_FN(a.value.first), hb = HASH_FN(b.value.first), hc = HASH_FN(c.value.first);
+  for (unsigned i = 0; i < 3; i++) { in_ok[i] = nondet_u32(); in_oh[i] = HASH_FN(in_ok[i]); }
+  a.value.first = in_ok[0]; b.value.first = in_ok[1]; c.value.first = in_ok[2];
+  a.value.second = (val_t)nondet_uptr(); b.value.second = (val_t)nondet_uptr(); c.value.second = (val_t)nondet_uptr();
+  hash_t ha = in_oh[0], hb = in_oh[1], hc = in_oh[2];
   /* data_without_hash: no hash field */
   a.hash = nondet_size(); b.hash = nondet_size(); c.hash = nondet_size();
   {
